@@ -16,6 +16,8 @@ if not NATIVE:
         NATIVE = True
 
 REGISTRY = {"harness": [], "summary": {}, "loops": {}, "models": {}}
+# qualname -> fn(ctx) -> instance built by the REAL constructor; ctx.obj(qualname, **attrs) starts from it and then applies attrs
+COMPLETERS = {}
 
 
 class Harness:
